@@ -32,6 +32,8 @@ type latencyCase struct {
 	Seed int64  `json:"seed,omitempty"`
 }
 
+const blockedAfter = 3 * time.Second // a write that has not returned by then is reported as blocked (expected: µs)
+
 const promptBound = 2 * time.Second // "without waiting": generous bound on a loaded machine; expected µs (the alternative is blocking for good or for the 5 s send timeout)
 
 func (c latencyCase) run(m *lib.Monitor) (maxLatency time.Duration) {
@@ -79,8 +81,8 @@ func (c latencyCase) valueIdle(m *lib.Monitor) (max time.Duration) {
 				m.Violate("C09/Value/lossy/set-error", "Set failed with an idle lossy subscriber", c, "nil", err.Error())
 				return
 			}
-		case <-time.After(6 * time.Second):
-			m.Violate("C09/Value/lossy/writer-blocked", "Set did not return with an idle lossy subscriber attached", c, "prompt return", "blocked > 6s at write "+last)
+		case <-time.After(blockedAfter):
+			m.Violate("C09/Value/lossy/writer-blocked", "Set did not return with an idle lossy subscriber attached", c, "prompt return", "blocked > 3s at write "+last)
 			return
 		}
 		if d := time.Since(t0); d > max {
@@ -92,7 +94,7 @@ func (c latencyCase) valueIdle(m *lib.Monitor) (max time.Duration) {
 	}
 	// now receive: seed first, then eventually the most recent value
 	var got []string
-	deadline := time.After(10 * time.Second)
+	deadline := time.After(3 * time.Second)
 loop:
 	for {
 		select {
@@ -140,8 +142,8 @@ func (c latencyCase) collectionIdle(m *lib.Monitor) (max time.Duration) {
 				m.Violate("C09/Collection/lossy/write-error", "a write failed with an idle lossy subscriber", c, "nil", name+": "+err.Error())
 				return false
 			}
-		case <-time.After(6 * time.Second):
-			m.Violate("C09/Collection/lossy/writer-blocked", "a write did not return with an idle lossy subscriber attached", c, "prompt return", "blocked > 6s at "+name)
+		case <-time.After(blockedAfter):
+			m.Violate("C09/Collection/lossy/writer-blocked", "a write did not return with an idle lossy subscriber attached", c, "prompt return", "blocked > 3s at "+name)
 			return false
 		}
 		if d := time.Since(t0); d > max {
@@ -176,7 +178,7 @@ func (c latencyCase) collectionIdle(m *lib.Monitor) (max time.Duration) {
 	}
 	view := map[string]string{}
 	n := 0
-	deadline := time.After(10 * time.Second)
+	deadline := time.After(3 * time.Second)
 loop:
 	for {
 		select {
@@ -190,7 +192,7 @@ loop:
 				break loop
 			}
 		case <-deadline:
-			m.Violate("C09/Collection/lossy/latest-not-received", "the subscriber did not receive the last change within 10s", c, "fence event", showView(view))
+			m.Violate("C09/Collection/lossy/latest-not-received", "the subscriber did not receive the last change within 3s", c, "fence event", showView(view))
 			break loop
 		}
 	}
@@ -379,7 +381,7 @@ func (c latencyCase) collectionStress(m *lib.Monitor) (max time.Duration) {
 	}()
 	view := map[string]string{}
 	n := 0
-	deadline := time.After(20 * time.Second)
+	deadline := time.After(6 * time.Second)
 loop:
 	for {
 		select {
@@ -396,7 +398,7 @@ loop:
 			}
 			n++
 		case <-deadline:
-			m.Violate("C09/Collection/lossy/stress/latest-not-received", "the subscriber did not receive the last change within 20s", c, "fence event", showView(view))
+			m.Violate("C09/Collection/lossy/stress/latest-not-received", "the subscriber did not receive the last change within 6s", c, "fence event", showView(view))
 			break loop
 		}
 	}
@@ -405,7 +407,7 @@ loop:
 		if e != "" {
 			m.Violate("C09/Collection/lossy/stress/write-error", "a write failed", c, "nil", e)
 		}
-	case <-time.After(10 * time.Second):
+	case <-time.After(blockedAfter):
 		m.Violate("C09/Collection/lossy/stress/writer-blocked", "the writer did not finish although the subscriber is lossy", c, "finished", "blocked")
 		return
 	}
@@ -459,7 +461,7 @@ func (c latencyCase) valueStress(m *lib.Monitor) (max time.Duration) {
 	}()
 	prev, n := -1, 0
 	got := ""
-	deadline := time.After(20 * time.Second)
+	deadline := time.After(6 * time.Second)
 loop:
 	for {
 		select {
@@ -488,7 +490,7 @@ loop:
 		if e != "" {
 			m.Violate("C09/Value/lossy/stress/set-error", "Set failed with a slow lossy subscriber", c, "nil", e)
 		}
-	case <-time.After(10 * time.Second):
+	case <-time.After(blockedAfter):
 		m.Violate("C09/Value/lossy/stress/writer-blocked", "the writer did not finish although the subscriber is lossy", c, "finished", "blocked")
 		return
 	}
@@ -537,8 +539,13 @@ func runConfirmed(c latencyCase, mon *lib.Monitor) time.Duration {
 	return d
 }
 
-func runLatency(f lib.Flags, res *lib.Result) {
-	mon := res.Monitor("writers-and-subscribers", "real Value/Collection with real Pull subscribers: with an idle lossy subscriber every Set/Update/Delete returns (bound 2s, latencies recorded) and on reading the subscriber gets the most recent value / a per-id chained stream folding to List; with backpressure Set does not return before the subscriber receives, and nothing is dropped or reordered while it keeps receiving; subscriber churn while a write is parked in Bus.Send behind a non-receiving backpressure subscriber (another subscription cancelled, a new one opened): the new subscriber receives the later writes (latest if lossy, all in order with backpressure); free-running stress (one writer at full speed, a lossy subscriber with seeded random pauses): the received stream chains per id / is in write order and ends, after a fence, in the collection's view / the last value; thorough: a never-read backpressured Pull makes Set return an error after ~5s; distinct = scenario and seed")
+func newLatencyMonitor(res *lib.Result) *lib.Monitor {
+	return res.Monitor("writers-and-subscribers", "real Value/Collection with real Pull subscribers: with an idle lossy subscriber every Set/Update/Delete returns (bound 2s, latencies recorded) and on reading the subscriber gets the most recent value / a per-id chained stream folding to List; with backpressure Set does not return before the subscriber receives, and nothing is dropped or reordered while it keeps receiving; subscriber churn while a write is parked in Bus.Send behind a non-receiving backpressure subscriber (another subscription cancelled, a new one opened): the new subscriber receives the later writes (latest if lossy, all in order with backpressure); free-running stress (one writer at full speed, a lossy subscriber with seeded random pauses): the received stream chains per id / is in write order and ends, after a fence, in the collection's view / the last value; thorough: a never-read backpressured Pull makes Set return an error after ~5s; every wait is bounded (1.5-6s) and a failing scenario is re-run twice; distinct = scenario and seed")
+}
+
+// runLatencyCases runs next to the other families (it mostly waits); returns the latencies to record.
+func runLatencyCases(f lib.Flags, mon *lib.Monitor) map[string]int64 {
+	extra := map[string]int64{}
 	cases := []latencyCase{
 		{Kind: "latency", What: "value-idle", N: f.N(200, 2000)},
 		{Kind: "latency", What: "collection-idle", N: f.N(200, 2000)},
@@ -557,8 +564,9 @@ func runLatency(f lib.Flags, res *lib.Result) {
 	for _, c := range cases {
 		d := runConfirmed(c, mon)
 		key := "max_write_latency_us/" + c.What
-		if prev, ok := res.Extra[key].(int64); !ok || d.Microseconds() > prev {
-			res.Extra[key] = d.Microseconds()
+		if prev, ok := extra[key]; !ok || d.Microseconds() > prev {
+			extra[key] = d.Microseconds()
 		}
 	}
+	return extra
 }
